@@ -121,9 +121,9 @@ def run_history(d, hist, k, mode="default"):
             problems.append(f"later segments not stripped of header/secondary header correctly: {rest.hex()}")
             continue
         outs.append(ids)
-    ngap = sum(1 for x in w if "are not in sequence" in str(x.message))
-    nno = sum(1 for x in w if "without declaring the start" in str(x.message))
-    return outs, ngap, nno, problems
+    k = core.warning_kinds(w)
+    k["parsed_items"] = sum(1 for it in items if not isinstance(it, UnrecognizedPacketTypeError))
+    return outs, k, problems
 
 
 def run(ctx):
@@ -175,9 +175,11 @@ def run(ctx):
         k = (0, 2, 5)[ci % 3]
         # the options decide what is delivered, never how groups are collected and closed
         mode = MODES[(ci // 3) % 4] if ci % 2 else "default"
-        outs, ngap, nno, problems = run_history(definition_for(mode), hist, k, mode)
+        outs, wk, problems = run_history(definition_for(mode), hist, k, mode)
         ctx.count(("A", k, tuple(hist), mode))
         ctx.tally("A_mode_" + mode)
+        # every reassembled output that is recognised is longer than the header-only definition: one length-mismatch warning each
+        nmm = len(c["o"]) if mode in ("default", "skipbad") else sum(1 for o in c["o"] if hist[o[0] - 1][0] != UNREC_APID)
         c = dict(c, o=expected_outs(c["o"], hist, mode))
         ctx.traces += 1
         if any(len(o) > 1 for o in c["o"]):
@@ -188,8 +190,8 @@ def run(ctx):
             prob = "; ".join(problems)
         elif outs != c["o"]:
             prob = f"outputs {outs} != model {c['o']}"
-        elif (ngap, nno) != (c["g"], c["s"]):
-            prob = f"warnings gap/nostart {(ngap, nno)} != model {(c['g'], c['s'])}"
+        elif not core.warnings_agree(wk, {"gap": c["g"], "nostart": c["s"], "mismatch": nmm}):
+            prob = f"warnings {wk} != model gap/nostart/length-mismatch {(c['g'], c['s'], nmm)}"
         if prob:
             kind = "reuse" if any(len(set(x)) != len(x) for x in outs) or len({i for o in outs for i in o}) != sum(len(o) for o in outs) else "mismatch"
             ctx.violation(f"C12/replay/{kind}" + ("" if mode == "default" else "/" + mode), prob + ("" if mode == "default" else f" [options: {mode}]"),
@@ -217,10 +219,16 @@ def run(ctx):
             seqc[a] = (seqc[a] + 1) % 16384
         k = rng.choice([0, 0, 1, 4])
         mode = "unrec-yield" if t % 3 == 2 else "default"       # both deliver every output, in order
-        outs, ngap, nno, problems = run_history(definition_for(mode), hist, k, mode)
+        outs, wk, problems = run_history(definition_for(mode), hist, k, mode)
+        # each parsed (recognised) output carries one length-mismatch warning; what is left over are the drop warnings
+        other = wk["other"] - (wk["parsed_items"] - wk["mismatch"])
+        if wk["mismatch"] > wk["parsed_items"] or other < 0:
+            problems.append(f"length-mismatch warnings {wk} for {wk['parsed_items']} parsed outputs")
+            other = 0
         if problems:
             ctx.violation("C12/trace/decode", "; ".join(problems), {"history": hist, "k": k, "mode": mode})
-        recs.append({"tid": t + 1, "pk": [list(h) for h in hist], "outs": outs, "gaps": ngap, "nostarts": nno, "k": k, "mode": mode})
+        recs.append({"tid": t + 1, "pk": [list(h) for h in hist], "outs": outs, "gaps": wk["gap"], "nostarts": wk["nostart"], "other": other,
+                     "k": k, "mode": mode})
     path = os.path.join(ctx.work, "seg-trace.ndjson")
     core.write_ndjson(path, recs)
     tcfg = cfg(ctx, "trace.cfg", None, 100000, allap, [0], ["TraceInv"], init=("TraceInit", "TraceNext"))
@@ -237,7 +245,7 @@ def run(ctx):
         ctx.count(("B", rec["k"], tuple(map(tuple, rec["pk"]))))
         if v[0] != "ACCEPT":
             ctx.violation(f"C12/trace/{v[2]}", f"trace rejected ({v[2]}): real outs {rec['outs'][:6]}.. gaps {rec['gaps']} "
-                          f"nostarts {rec['nostarts']}; model {v[3][:300]}", {"history": rec["pk"], "k": rec["k"], "mode": rec["mode"]})
+                          f"nostarts {rec['nostarts']} (unrecognised wording: {rec['other']}); model {v[3][:300]}", {"history": rec["pk"], "k": rec["k"], "mode": rec["mode"]})
     ctx.sample({"direction": "code->spec", "packets": len(recs[0]["pk"]), "first_packets": recs[0]["pk"][:8],
                 "outs": recs[0]["outs"][:5]}, limit=5)
 
@@ -246,15 +254,17 @@ def replay(ctx, obj):
     mode = obj.get("mode", "default")
     d = definition_for(mode)
     hist = [tuple(h) for h in obj["history"]]
-    outs, ngap, nno, problems = run_history(d, hist, obj.get("k", 0), mode)
-    if "model" in obj and (problems or outs != obj["model"]["o"] or (ngap, nno) != (obj["model"]["g"], obj["model"]["s"])):
-        ctx.violation("C12/replay/mismatch", f"outputs {outs} warnings {(ngap, nno)} problems {problems}; expected {obj['model']}", obj)
+    outs, wk, problems = run_history(d, hist, obj.get("k", 0), mode)
+    ngap, nno = wk["gap"], wk["nostart"]
+    if "model" in obj and (problems or outs != obj["model"]["o"] or wk["gap"] > obj["model"]["g"] or wk["nostart"] > obj["model"]["s"]
+                           or (wk["other"] == 0 and (ngap, nno) != (obj["model"]["g"], obj["model"]["s"]))):
+        ctx.violation("C12/replay/mismatch", f"outputs {outs} warnings {wk} problems {problems}; expected {obj['model']}", obj)
     if mode in ("skipbad", "unrec-skip"):
-        print("outputs:", outs, "gaps:", ngap, "nostarts:", nno, "problems:", problems)
+        print("outputs:", outs, "warnings:", wk, "problems:", problems)
         return
     print("outputs:", outs, "gaps:", ngap, "nostarts:", nno, "problems:", problems)
     path = os.path.join(ctx.work, "seg-replay.ndjson")
-    core.write_ndjson(path, [{"tid": 1, "pk": [list(h) for h in hist], "outs": outs, "gaps": ngap, "nostarts": nno, "k": 0}])
+    core.write_ndjson(path, [{"tid": 1, "pk": [list(h) for h in hist], "outs": outs, "gaps": ngap, "nostarts": nno, "other": 0, "k": 0}])
     apids = sorted({h[0] for h in hist})
     tcfg = cfg(ctx, "trace.cfg", None, 100000, apids, [0], ["TraceInv"], init=("TraceInit", "TraceNext"))
     rt = ctx.tlc_expect_ok("Trace_Segments", tcfg, workers=1, env={"TRACE_FILE": path})
